@@ -23,11 +23,26 @@ pub struct Limits {
     pub tools: Tools,
 }
 
+const BIG_PRELUDE: &str = "struct S1 { a: Int64, b: Int64, c: Int64, d: Int64, e: Int64, f: Int64, g: Int64, h: Int64 }\nstruct S2 { a: S1, b: S1, c: S1, d: S1, e: S1, f: S1, g: S1, h: S1 }\nstruct S3 { a: S2, b: S2, c: S2, d: S2, e: S2, f: S2, g: S2, h: S2 }\nstruct S4 { a: S3, b: S3, c: S3, d: S3, e: S3, f: S3, g: S3, h: S3 }\nfn mk1(x: Int64): S1 { S1(a = x, b = x + 1, c = x + 2, d = x + 3, e = x + 4, f = x + 5, g = x + 6, h = x + 7) }\nfn mk2(x: Int64): S2 { let v = mk1(x); S2(a = v, b = v, c = v, d = v, e = v, f = v, g = v, h = v) }\nfn mk3(x: Int64): S3 { let v = mk2(x); S3(a = v, b = v, c = v, d = v, e = v, f = v, g = v, h = v) }\nfn mk4(x: Int64): S4 { let v = mk3(x); S4(a = v, b = v, c = v, d = v, e = v, f = v, g = v, h = v) }\n";
+
+thread_local! {
+    /// (prelude, estimated frame bytes) of the frame shape generated last on this thread
+    static LAST_FRAME: std::cell::RefCell<(String, usize)> = const { std::cell::RefCell::new((String::new(), 0)) };
+}
+
 fn frame_shape(c: &mut Choices) -> (String, String, String) {
     // (extra params, locals block using n, result expression) for a recursive function body
     let nloc = *c.pick(&[0usize, 1, 4, 16, 64, 200, 400]);
     let mut locals = String::new();
     let mut sum = String::from("0");
+    // by-value struct locals of 4 KiB (S3) or 32 KiB (S4): frames from a few KiB to ~100 KiB plus by-value temporaries (the managed stack is 500 KiB), i.e. larger than
+    // a guard page, than the red zone below the stack limit and than what a tight thread stack leaves below it
+    let (nbig, level) = *c.pick(&[(0usize, 3usize), (0, 3), (0, 3), (1, 3), (3, 3), (16, 3), (1, 4), (2, 4), (3, 4)]);
+    for i in 0..nbig {
+        locals.push_str(&format!("    let b{i} = mk{level}(n + {i});\n"));
+        sum.push_str(&format!(" + b{i}.{}", if level == 4 { "a.b.c.d" } else { "a.b.c" }));
+    }
+    LAST_FRAME.with(|f| *f.borrow_mut() = (if nbig > 0 { BIG_PRELUDE.to_string() } else { String::new() }, nbig * if level == 4 { 32 << 10 } else { 4 << 10 }));
     for i in 0..nloc {
         locals.push_str(&format!("    let l{i}: Int64 = n + {i};\n"));
         if i % 7 == 0 {
@@ -60,6 +75,9 @@ pub fn gen_limit(c: &mut Choices) -> LimitCase {
         0 | 1 => {
             // stack exhaustion
             let (params, locals, sum) = frame_shape(c);
+            let (prelude, frame_bytes) = LAST_FRAME.with(|f| f.borrow().clone());
+            // the bounded partner must fit a spawned thread's stack comfortably
+            let partner_depth = if frame_bytes == 0 { 20 } else { ((400usize << 10) / (3 * frame_bytes)).saturating_sub(1).clamp(0, 20) };
             let tv = tuple_value(&params);
             let pass = if params.is_empty() { "" } else { ", t" };
             let shape = c.below(6);
@@ -89,7 +107,7 @@ pub fn gen_limit(c: &mut Choices) -> LimitCase {
                 ),
             };
             let body = |limit: &str| {
-                let d = defs.replace("LIMIT", limit);
+                let d = format!("{prelude}{}", defs.replace("LIMIT", limit));
                 if on_thread {
                     format!("{d}fn main() {{\n    println(\"start\");\n    let t = std::thread::spawn(||: () {{\n        let r = {call};\n        println(\"done ${{r > 0 || r <= 0}}\");\n    }});\n    t.join();\n    println(\"end\");\n}}\n")
                 } else {
@@ -97,13 +115,16 @@ pub fn gen_limit(c: &mut Choices) -> LimitCase {
                 }
             };
             LimitCase {
-                label: format!("stack:{name}:{}:{}", if on_thread { "spawned-thread" } else { "main-thread" }, if params.is_empty() { "no-tuple" } else { "tuple-param" }),
+                label: format!("stack:{name}:{}:{}{}", if on_thread { "spawned-thread" } else { "main-thread" }, if params.is_empty() { "no-tuple" } else { "tuple-param" }, if frame_bytes >= 64 << 10 { ":frame>=64K" } else if frame_bytes > 0 { ":frame>=4K" } else { "" }),
                 source: body("-1"),
                 gc,
                 runtime_args: heap,
                 accept: stack,
-                partner: Some(body("20")),
-                partner_stdout: Some("start\ndone true\nend\n".into()),
+                // no bounded partner for frames with by-value struct locals: the optimizing compiler's frame for them is
+                // several times the size of the data (418 KiB for two 32 KiB structs), so even one or two activations may
+                // legitimately exceed the 500 KiB managed stack
+                partner: if frame_bytes > 0 { None } else { Some(body(&partner_depth.to_string())) },
+                partner_stdout: if frame_bytes > 0 { None } else { Some("start\ndone true\nend\n".into()) },
                 arg_class: String::new(),
             }
         }
@@ -296,7 +317,7 @@ pub fn main(mode: Mode) -> i32 {
                 println!("INCONCLUSIVE property=C13 the optimizing compiler could not be bootstrapped from this tree");
                 return 2;
             }
-            ctx.rule = "cases: (stack) unbounded recursion — plain, mutual, generic, through a trait object, through a lambda stored in a class, with deep expression temporaries — with generated frame shapes (0-400 locals, by-value tuple parameters of 0-512 words), on the main thread and on a spawned thread, each with a bounded partner program (same shape, depth 20) that must run to completion; (heap) retention loops (Vec of arrays, linked list with payload arrays, strings) that keep > 600 MiB alive under a 16-128 MiB heap, with a 3-round partner; single allocations (Array::fill/zero, Vec::new_with_capacity) over element sizes 1/3/4/8/24 bytes with lengths from {negative, 10^8, 2^29, 2^31, 2^32, 1431655766, 2^60-1, 2^61, 2^61+1, Int64 max, …}; x collectors {swiper, copy, sweep, zero} x heap sizes x both code generators. oracle: exit status 107 'stack overflow' resp. 106 'out of memory' (for impossible sizes 106 or 109 'overflow') with a stack trace and the output printed before — never a signal, a hang, a runtime panic or a successful run with a bogus object; partner programs exit 0. non-trivial = every case (each reaches the limit by construction); distinct by (source, collector, flags) hash".into();
+            ctx.rule = "cases: (stack) unbounded recursion — plain, mutual, generic, through a trait object, through a lambda stored in a class, with deep expression temporaries — with generated frame shapes (0-400 locals, by-value tuple parameters of 0-512 words, 0-16 by-value struct locals of 4 or 32 KiB, i.e. frames up to ~100 KiB plus temporaries), on the main thread and on a spawned thread, each (except the ones with by-value struct locals) with a bounded partner program (same shape, depth 20) that must run to completion; (heap) retention loops (Vec of arrays, linked list with payload arrays, strings) that keep > 600 MiB alive under a 16-128 MiB heap, with a 3-round partner; single allocations (Array::fill/zero, Vec::new_with_capacity) over element sizes 1/3/4/8/24 bytes with lengths from {negative, 10^8, 2^29, 2^31, 2^32, 1431655766, 2^60-1, 2^61, 2^61+1, Int64 max, …}; x collectors {swiper, copy, sweep, zero} x heap sizes x both code generators. oracle: exit status 107 'stack overflow' resp. 106 'out of memory' (for impossible sizes 106 or 109 'overflow') with a stack trace and the output printed before — never a signal, a hang, a runtime panic or a successful run with a bogus object; partner programs exit 0. non-trivial = every case (each reaches the limit by construction); distinct by (source, collector, flags) hash".into();
             ctx.run_regressions(&p);
             ctx.run_known_reproducers(&p);
             let n = ctx.n(100, 3000);
